@@ -269,6 +269,13 @@ def MSt.storeFrag (s : MSt) (address : Expression) : Bool :=
     id == s.stackId && (match objGet s.objs id with | some o => o.unique | none => false)
   | none => false
 
+/-- no i64 overflow of `offset + size` in `mem_region.rs` for a store of `size` bytes through `address` (the
+no-overflow precondition of the C05 model) -/
+def MSt.storeBounded (s : MSt) (address : Expression) (size : Nat) : Bool :=
+  match (s.st.eval address).getIfUniqueTarget with
+  | some (_, o) => decide (o.interval.stop + (size : Int) ≤ i64Max)
+  | none => true
+
 /-- the address value has no absolute part and every relative target is the stack identifier, an
 identifier without memory object, or has a non-constant offset (the last two only set the top flag) -/
 def MSt.loadFrag (s : MSt) (address : Expression) : Bool :=
